@@ -65,8 +65,15 @@ impl FunctionDescription {
         let return_type = F::return_type();
         let trampoline_ptr = &F::TRAMPOLINE as *const _ as *const *const u8;
         let trampoline = unsafe { *trampoline_ptr };
-        let ir_function = func.ir_function();
         let pointer = func.ptr();
+
+        // The IR function keeps a raw pointer to the function. So we create
+        // it from the final location of the function on the heap and not
+        // from `func`, which only lives on the stack of this call.
+        let ir_function = (**pointer)
+            .downcast_ref::<F>()
+            .expect("the pointer was made from a value of this type")
+            .ir_function();
 
         Self {
             parameter_types,
